@@ -331,6 +331,45 @@ impl C15 {
     }
 
 
+    /// An included file that is a symbolic link (a shared library file linked into the
+    /// project): its own relative includes are found next to the link, where the program
+    /// names it, and its diagnostics are shown under that name.
+    fn run_symlink_case(case: u64, acc: &mut Acc) {
+        acc.count("symlink_cases", 1);
+        if crate::profile() != "release" {
+            return;
+        }
+        let c = cli::CliCase {
+            name: "include-through-a-symbolic-link".into(),
+            entries: vec![
+                cli::Entry::File("proj/main.s".into(), b"main:\n    li a0, 3\n    jal twice\n    li a7, 1\n    ecall\n    li a7, 10\n    ecall\n    .include \"lib/util.s\"\n".to_vec()),
+                cli::Entry::File("shared/util.s".into(), b"twice:\n    add zero, a0, a0\n    .include \"config.s\"\n".to_vec()),
+                cli::Entry::Link("proj/lib/util.s".into(), "../../shared/util.s".into()),
+                cli::Entry::File("proj/lib/config.s".into(), b"    slli a0, a0, 1\n    ret\n".to_vec()),
+            ],
+            base: "proj/main.s".into(),
+        };
+        let dir = cli::materialize(&c);
+        let out = cli::run_rva("release", &dir, "proj/main.s", &["--compact", "--no-color", "--all-files"], &[("RVA_VERIF_SCHEDULE", String::new())], Duration::from_secs(10));
+        let _ = std::fs::remove_dir_all(&dir);
+        let Ok(o) = out else { return };
+        acc.count("cli_runs", 1);
+        acc.count("traces", 1);
+        let items: Vec<&str> = o.stdout.lines().filter(|l| l.starts_with("Error:") || l.starts_with("Warning:")).collect();
+        // the pasted program draws its items on the write to the zero register in util.s
+        let ok = !items.is_empty() && items.iter().all(|l| l.contains("proj/lib/util.s") && l.contains(" at 2 ")) && !o.stdout.contains("IO Error");
+        if !ok {
+            acc.violation(
+                "C15|include-through-a-symbolic-link",
+                case,
+                json!({"case": case, "symlink_case": true, "files": {"proj/main.s": "... .include \"lib/util.s\"", "proj/lib/util.s": "-> ../../shared/util.s", "shared/util.s": "twice: / add zero, a0, a0 / .include \"config.s\"", "proj/lib/config.s": "slli a0, a0, 1 / ret"},
+                       "stdout": o.stdout, "expected": "items only on line 2 of proj/lib/util.s (the write to the zero register), no IO error"}),
+            );
+            return;
+        }
+        acc.outcome("symbolic-link", case);
+    }
+
     /// one include graph: no faults, then every answer sequence with one fault (thorough: two)
     fn run_graph(&self, tier: Tier, case: u64, g: u64, acc: &mut Acc) {
         let files = graph_files(g);
@@ -531,7 +570,7 @@ impl Property for C15 {
         "C15"
     }
     fn cases(&self, tier: Tier) -> u64 {
-        self.extra.len() as u64 + self.pool(tier).count() + N_GRAPHS
+        self.extra.len() as u64 + self.pool(tier).count() + N_GRAPHS + 1
     }
     fn chunk(&self, _tier: Tier) -> u64 {
         4
@@ -539,6 +578,10 @@ impl Property for C15 {
     fn run_case(&self, tier: Tier, case: u64, acc: &mut Acc) {
         acc.count("cases", 1);
         let n_programs = self.extra.len() as u64 + self.pool(tier).count();
+        if case >= n_programs + N_GRAPHS {
+            Self::run_symlink_case(case, acc);
+            return;
+        }
         if case >= n_programs {
             self.run_graph(tier, case, case - n_programs, acc);
             return;
